@@ -25,9 +25,9 @@ CLAIMED = {
     technique="SAT-based bounded model checking (Kani/CBMC) of symbolic operation histories on the real symbol table with a ghost model; native replay by concrete playback",
     design="§4 C06"),
  "C07": dict(
-    text="Bounded model checking (Kani/CBMC) with panic/overflow/shift/division checks on: real numeric primitives (arithmetic-shift and abs at full width, expt with exponent -30, the division family on stated operand ranges) return Ok or Err and never panic; a failed evaluation rolled back in the real symbol table leaves no residue.",
-    note="Kernel level only. Outside: arbitrary source text (reader not encodable, see C12), expansion/compilation, stack reset after errors, native stack depth.",
-    technique="SAT-based bounded model checking (Kani/CBMC) of real primitives with Kani's panic checks; native replay by concrete playback",
+    text="Bounded model checking (Kani/CBMC) with panic/overflow/shift/division checks on: real numeric primitives (arithmetic-shift and abs at full width, expt with exponent -30, the division family on stated operand ranges) return Ok or Err and never panic; a failed evaluation rolled back in the real symbol table leaves no residue. Plus one SMT query (z3, QF_BV) per registered built-in procedure over its MIR: no argument count reaches an out-of-bounds access of the argument vector, a failing sub-slice args[n..], or an unwrapped conversion of an argument.",
+    note="Kernel level only; in the MIR queries only branch conditions on the argument count are interpreted. Outside: arbitrary source text (reader not encodable, see C12), expansion/compilation, stack reset after errors, native stack depth.",
+    technique="SAT-based bounded model checking (Kani/CBMC) of real primitives with Kani's panic checks, and SMT (z3, QF_BV) over the MIR of all registered built-in procedures for argument-vector accesses; native replay by concrete playback / a script call under catch_unwind",
     design="§4 C07"),
  "C19": dict(
     text="Bounded model checking (Kani/CBMC) of the real allocator's accounting from every 3-slot pre-state: a slot without any handle is free after a weak collection; after mark_all_unreachable + marks + recount the free count equals the number of unmarked slots; the fill ratio stays in [0,1].",
